@@ -31,6 +31,13 @@ fn err_json(e: &dyn std::fmt::Display, errno: Option<i32>) -> Value {
     json!({"k":"err","v":errno.unwrap_or(0),"msg":e.to_string()})
 }
 
+fn perrno(e: &subprocess::PopenError) -> Option<i32> {
+    match e {
+        subprocess::PopenError::IoError(io) => io.raw_os_error(),
+        _ => None,
+    }
+}
+
 fn run_one(v: &Value, out: &mut Vec<String>) {
     let detached_cfg = v["detached"].as_bool().unwrap_or(false);
     let mut p = Popen::create(&["true"], PopenConfig { detached: detached_cfg, ..Default::default() })
@@ -48,6 +55,9 @@ fn run_one(v: &Value, out: &mut Vec<String>) {
     sim.ignores_term = v["ignores_term"].as_bool().unwrap_or(false);
     sim.kill_latency = v["kill_latency"].as_u64().unwrap_or(0);
     sim.overshoot = v["overshoot"].as_u64().unwrap_or(0);
+    if let Some(l) = v["eintr_at"].as_array() {
+        sim.eintr_at = l.iter().map(|x| x.as_u64().unwrap()).collect();
+    }
     if let Some(sc) = v["script"].as_array() {
         sim.script = Some(sc.iter().map(|x| x.as_str().unwrap().as_bytes()[0]).collect());
         sim.script_exit = Some(stat(&v["exit"]));
@@ -80,11 +90,11 @@ fn run_one(v: &Value, out: &mut Vec<String>) {
                 "poll" => opt_json(p.poll()),
                 "wait" => match p.wait() {
                     Ok(s) => st_json(s),
-                    Err(e) => err_json(&e, None),
+                    Err(e) => err_json(&e, perrno(&e)),
                 },
                 "wait_timeout" => match p.wait_timeout(Duration::from_nanos(arg)) {
                     Ok(s) => opt_json(s),
-                    Err(e) => err_json(&e, None),
+                    Err(e) => err_json(&e, perrno(&e)),
                 },
                 "pid" => match p.pid() {
                     Some(x) => json!({"k":"some","v": x as i64 - sim.real_pid as i64 + psim::VPID}),
